@@ -220,6 +220,11 @@ func (p *Impl) Load(cacheFile string) (err error) {
 }
 
 func (p *Impl) loadCachePkgs(lines []string) error {
+	type cacheItem struct {
+		path string
+		pkg  *pkgCache
+	}
+	var items []cacheItem // nothing is stored unless the whole file is well-formed
 	for len(lines) > 0 {
 		line := lines[0]
 		parts := strings.SplitN(line, "\t", 4)
@@ -244,8 +249,11 @@ func (p *Impl) loadCachePkgs(lines []string) error {
 			deps = append(deps, depPkg{line[:pos], line[pos+1:]})
 		}
 		pkg := &pkgCache{expfile: parts[1], hash: parts[2], deps: deps}
-		p.cache.Store(parts[0], pkg)
+		items = append(items, cacheItem{parts[0], pkg})
 		lines = lines[n+1:]
+	}
+	for _, item := range items {
+		p.cache.Store(item.path, item.pkg)
 	}
 	return nil
 }
